@@ -208,6 +208,15 @@ def run(pid, tier, seed):
     if gerr and cfg.get("uses_gen"):
         coq["ok"] = False
         coq["failed"] = "translator could not regenerate coq/Gen from the current source: " + gerr
+    # configuration pin (tools/pin.py): table entries and run-number arms have no specification in the repository;
+    # the property was established for the pinned configuration, a regenerated configuration that differs is a broken
+    # correspondence (reported with the changed definitions; `./check --repin` after a reviewed, deliberate change)
+    import pin
+    pin_diffs = pin.compare(pid) if not gerr else []
+    if pin_diffs:
+        coq["ok"] = False
+        coq["failed"] = ("regenerated configuration differs from the pinned one (pinned/*.v.gz): " + "; ".join(pin_diffs[:6])
+                         + (" ... (%d differences)" % len(pin_diffs) if len(pin_diffs) > 6 else ""))
     if h_exe is None:
         # /repo no longer builds with the harness: not a property verdict, but the check cannot run
         sys.stdout.write(hout[-3000:])
@@ -314,7 +323,10 @@ def run(pid, tier, seed):
         if coq["bad_axioms"]:
             what.append("axioms not in allowlist: " + ", ".join(coq["bad_axioms"]))
         if not coq["ok"]:
-            what.append("theorem(s) of Props/%s.v no longer check: %s" % (pid, coq["failed"]))
+            if pin_diffs or (gerr and cfg.get("uses_gen")):
+                what.append("correspondence with the source no longer checks: %s" % coq["failed"])
+            else:
+                what.append("theorem(s) of Props/%s.v no longer check: %s" % (pid, coq["failed"]))
         if not any(v.get("witness") for v in violations):
             rp = vlib.write_replay(pid, dict(property=pid, kind="proof-obligation-broken", detail=what,
                                              log_tail=coq["log"][-3000:], searched_cases=len(cases)))
@@ -340,7 +352,7 @@ def run(pid, tier, seed):
         evaluations=len(cases), distinct_nontrivial=len(distinct), rule=cfg["rule"],
         samples=samples, generator_histogram=dict(hist), implementation_outcomes=dict(outcome),
         model_vs_implementation_differences=len(diffs), corpus_cases=len(corpus),
-        known_findings_hit=list(known_hits.keys()), notes=notes, source_changed=changed, generator_seeds=seeds,
+        known_findings_hit=list(known_hits.keys()), notes=notes, configuration_pin_differences=pin_diffs, source_changed=changed, generator_seeds=seeds,
         coqchk=(dict(ok=chk["ok"], axioms=chk["axioms"], unsafe=chk["unsafe"]) if chk else "thorough tier only"),
     )
     vlib.write_evidence(pid, tier, seed, coverage,
